@@ -449,7 +449,18 @@ func (n *normalizer) block(b *ast.BlockStmt) {
 					return true
 				})
 			}
-			if uses == 1 && wholeOperand(n.info, stmts[i+1], obj) {
+			// … or as the whole argument of the pointer-wrapping idiom in the next return (`return FromArray(v)` ≡ `return &v`)
+			ptrOperand := false
+			if rs, isRet := stmts[i+1].(*ast.ReturnStmt); isRet && len(rs.Results) == 1 {
+				if call, isCall := rs.Results[0].(*ast.CallExpr); isCall {
+					if arg, okP := n.ptrArg(call); okP {
+						if id, isID := arg.(*ast.Ident); isID && n.info.ObjectOf(id) == obj {
+							ptrOperand = true
+						}
+					}
+				}
+			}
+			if uses == 1 && (ptrOperand || wholeOperand(n.info, stmts[i+1], obj)) {
 				save := n.out
 				n.out = nil
 				n.expr(rhs)
